@@ -149,17 +149,23 @@ var knownPatternsLock = &sync.RWMutex{}
 // needs to be compiled. name is the name of the variable used in error messages.
 func ValidatePattern(name, val, p string) error {
 	knownPatternsLock.RLock()
+	verifPatternHook("rlock", p)
 	r, ok := knownPatterns[p]
 	knownPatternsLock.RUnlock()
+	verifPatternHook("runlock", p)
 	if !ok {
 		r = regexp.MustCompile(p) // DSL validation makes sure regexp is valid
+		verifPatternHook("compile", p)
 		knownPatternsLock.Lock()
 		knownPatterns[p] = r
+		verifPatternHook("write", p)
 		knownPatternsLock.Unlock()
 	}
 	if !r.MatchString(val) {
+		verifPatternHook("match", p)
 		return InvalidPatternError(name, val, p)
 	}
+	verifPatternHook("match", p)
 	return nil
 }
 
